@@ -416,7 +416,7 @@ func body(r *explore.Run, rep *report.R, sc string, variant string, depth int) {
 		_ = afero.WriteFile(fs, p, b, 0o644)
 	}
 	w := &world{s: s, reg: reg, fs: fs, r: r, variant: variant, bNames: bNames}
-	w.inj = &xrh.FaultInjector{Run: r, Reads: report.Thorough(), NoCrash: true, Filter: func(c simkube.Call) bool { return c.Client == "rev" }}
+	w.inj = (&xrh.FaultInjector{Run: r, Reads: report.Thorough(), NoCrash: true, Filter: func(c simkube.Call) bool { return c.Client == "rev" }}).WithErrClasses(s)
 	s.Inj = simkube.InjectorFn(w.interpose)
 	mgr := pkgh.NewProviderManager(s.Client("mgr"), reg)
 	rr := w.newRevReconciler()
